@@ -424,6 +424,6 @@ def oracle(c, stats):
 
 
 PARTS = [
-    HypPart("graphs", lambda tier: case(), oracle, {"quick": 5000, "thorough": 60000}),
+    HypPart("graphs", lambda tier: case(), oracle, {"quick": 12000, "thorough": 80000}),
     FuzzPart("coverage-guided-graphs", "graphs", runs=5000),
 ]
